@@ -47,6 +47,14 @@ CHECKS = {
             "The admission function is a transcription of Process::do_action + the arm guards whose tables are regenerated from the source; 'a rejected action "
             "changes nothing' is decided by comparing the engine's dumps and traces, the concurrent clause by a deterministic rendezvous of real client "
             "threads before their first write (not by a model of the OS scheduler).", "5 C05"),
+    "C01": ("Lean 4 K2 theorems by mutual structural induction over a reference interpretation of the control-flow fragment (unfinished => an unanswered "
+            "interrupt is open; all answered => finished; done is monotone), for all workflows, condition values and answer sets; the Lean progress "
+            "monitor is evaluated at every quiescent point of the real engine over generated shapes and queue release orders; three-way correspondence "
+            "engine / operational Lean model / reference interpretation",
+            "The theorems are about Spec/Ref.lean (no schedule exists in it). That the engine refines it is checked, not proved: the engine's open interrupts and "
+            "finished flag are compared with Ref at every quiescent point, and the engine's whole trace with the operational model Model/Op.lean. needs / mixed / "
+            "two-else shapes are outside Ref and are decided by the monitor. Schedules are release orders of the parked queue, not interleavings inside one exec.",
+            "5 C01"),
 }
 
 NOT_YET = {}
